@@ -21,7 +21,7 @@ def pool(rng, n):
         v = rng.choice(NAMES)
         w = rng.choice(NAMES)
         val = rng.choice(["0.5", "3", "1+2j", "2.5e-1", "7"])
-        k = i % 12
+        k = i % 14
         if k == 0:
             s, _ = gen.gen_script(rng, {"depth": 2, "max_items": 5})
             out.append(("valid", gen.render(s)))
@@ -44,6 +44,11 @@ def pool(rng, n):
             out.append(("fails-template-then", H + "\nG({%s}, {%s}) | 0\nint array %s =\n    1, 2.5j\n" % (v, w, v)))
         elif k == 9:
             out.append(("fails-mode", H + "\nint %s = 2\nfloat %s = 0.5\nG | %s\n" % (v, w + "f", w + "f")))
+        elif k == 12:
+            out.append(("valid-include", 'name h\nversion 1.0\ninclude "inc_ok.xbb"\n\nfloat %s = %s\nSub | [2, 3]\nG(%s) | 0\n' % (v, val, v)))
+        elif k == 13:
+            # not a load: the included file is rewritten on disk between two loads
+            out.append(("rewrite-include", WRITE + "inc_ok.xbb\n" + INC_OK[rng.randrange(len(INC_OK))]))
         elif k == 10:
             out.append(("fails-in-include", 'name h\nversion 1.0\ninclude "inc_bad_%s.xbb"\n\nG | 0\n' % v))
         else:
@@ -51,8 +56,14 @@ def pool(rng, n):
     return out
 
 
+WRITE = "#!write "
+INC_OK = ["name Sub\nversion 1.0\n\nG(1, 0.5) | 0\nH(0.25, k=[1, 2]) | [0, 1]\n",
+          "name Sub\nversion 1.0\n\nG(2, 0.75) | 1\nH(0.5, k=[3]) | [1, 0]\nK | 0\n",
+          "name Sub\nversion 1.0\n\nH(7) | [0, 1]\n"]
+
+
 def include_files():
-    files = {}
+    files = {"inc_ok.xbb": INC_OK[0]}
     for v in NAMES:
         files["inc_bad_%s.xbb" % v] = "name Inc%s\nversion 1.0\n\nfloat %s = 0.25\nfor int k in 1:3\n    G(k, undefined_inside) | k\n" % (v, v)
     return files
@@ -79,11 +90,22 @@ def check_history(texts, root=None):
 def o_history_in(texts, root):
     core.reset_tables()
     progs = []
+    with open(os.path.join(root, "inc_ok.xbb"), "w", encoding="utf-8") as f:
+        f.write(INC_OK[0])
+    version = INC_OK[0]
     for i, t in enumerate(texts):
+        if t.startswith(WRITE):
+            fn, content = t[len(WRITE):].split("\n", 1)
+            with open(os.path.join(root, fn), "w", encoding="utf-8") as f:
+                f.write(content)
+            version = content
+            continue
         here, obj = oracles.outcome_here(t)
-        if (root, t) not in _FRESH:
-            _FRESH[(root, t)] = oracles.fresh_request({"text": t, "cwd": root, "chdir": root})
-        fresh = _FRESH[(root, t)]
+        uses_file = "inc_ok.xbb" in t
+        key = (root, t, version if uses_file else None)
+        if key not in _FRESH:
+            _FRESH[key] = oracles.fresh_request({"text": t, "cwd": root, "chdir": root})
+        fresh = _FRESH[key]
         if here != fresh:
             return "load %d of the history gives %s here but %s in a pristine process" % (
                 i + 1, common.short(repr(here), 300), common.short(repr(fresh), 300))
@@ -93,6 +115,13 @@ def o_history_in(texts, root):
     for k, p in enumerate(progs):
         parts = [p._operations, p._var, p._target, p._type, p._parameters, p._modes, p._target["options"],
                  p._type["options"]] + list(p._operations)
+        for op in p._operations:
+            for key_ in ("args", "kwargs", "modes"):
+                if isinstance(op.get(key_), (list, dict)):
+                    parts.append(op[key_])
+            for v_ in (op.get("kwargs") or {}).values():
+                if isinstance(v_, list):
+                    parts.append(v_)
         for part in parts:
             if id(part) in seen and seen[id(part)] != k:
                 return "programs returned by loads %d and %d share a mutable object" % (seen[id(part)] + 1, k + 1)
@@ -109,11 +138,11 @@ def replay(ctx, data):
 def run(ctx):
     ctx.rule = ("histories of 2-8 loads drawn from a pool of valid scripts, templates, scripts failing at each stage "
                 "(syntax, undefined name after a definition, inside a loop, inside an include, wrong mode type, "
-                "array type) and scripts whose target/type options mention names, all over a small set of colliding "
+                "array type), scripts that include a file which other steps of the history rewrite on disk, and scripts whose target/type options mention names, all over a small set of colliding "
                 "variable and parameter names; each load's outcome (operations, parameters, variables, options, "
                 "serialisation, or error class with identifier and position) is compared with its outcome in a "
                 "forked child of a process that has never loaded anything; returned programs are scanned for shared "
-                "mutable objects; model HIST (tables threaded through the history) vs implementation; non-trivial = "
+                "mutable objects (operation lists, operation dicts, argument lists, keyword dicts and lists, mode lists); model HIST (tables threaded through the history) vs implementation; non-trivial = "
                 "a failing load followed by a load that mentions a name the failing one defined; distinct by texts")
     n = ctx.n(300, 6000)
     pl = pool(ctx.rng, ctx.n(96, 600))
@@ -135,7 +164,7 @@ def run(ctx):
         msg = check_history(texts, root)
         if msg:
             ctx.violation("history: " + msg, {"kind": "history", "texts": texts})
-        if not any(k == "fails-in-include" for k in kinds):
+        if not any(k in ("fails-in-include", "valid-include", "rewrite-include") for k in kinds):
             lines.append(core.cmd("HIST", "/", *texts))
             hists.append(texts)
     shutil.rmtree(root, ignore_errors=True)
